@@ -237,4 +237,14 @@ def check_C19(tier=None):
     return generic('C19', date_configs, RULE, tier)
 
 
-CHECKS = {'C15': check_C15, 'C16': check_C16, 'C17': check_C17, 'C18': check_C18, 'C19': check_C19}
+def extras_configs(tier, seed):
+    ps = [par(k, 'a \n\t1', ext=e) for k in ('Text', 'Whitespace', 'NonWhitespace') for e in (False, True)]
+    return [meta_config('text-whitespace', ps, 4 if tier == 'quick' else 5)]
+
+
+def check_X01(tier=None):
+    """Not a listed property and not registered in MANIFEST: Text / Whitespace / NonWhitespace languages (specification growth)."""
+    return generic('X01', extras_configs, RULE, tier)
+
+
+CHECKS = {'X01': check_X01, 'C15': check_C15, 'C16': check_C16, 'C17': check_C17, 'C18': check_C18, 'C19': check_C19}
